@@ -121,6 +121,15 @@ pub proof fn lemma_nals_bytes_len(v: Seq<NalUnit>, n: int)
     if n > 0 { lemma_nals_bytes_len(v, n - 1); }
 }
 
+pub proof fn lemma_avcc_bytes_len(b: AvcCBox)
+    requires avcc_wire(b)
+    ensures avcc_bytes(b).len() == avcc_len(b)
+{
+    broadcast use lemma_be_bytes_len;
+    lemma_nals_bytes_len(b.sequence_parameter_sets@, b.sequence_parameter_sets@.len() as int);
+    lemma_nals_bytes_len(b.picture_parameter_sets@, b.picture_parameter_sets@.len() as int);
+}
+
 // ---- trun (8.8.8), decode side; p = start of the box in the 8-byte-header convention
 pub open spec fn trun_o3(d: Seq<u8>, p: int, flags: u32) -> int { p + 16 + (if flag_set(flags, 0x01) { 4int } else { 0 }) + (if flag_set(flags, 0x04) { 4int } else { 0 }) }
 /// start of the record of sample j
